@@ -235,7 +235,7 @@ func c06Glob(e *Env) {
 	r.Rule("C06.glob-injection", "VF", "DAG-derived text reaching filepath.Glob is escaped", 3)
 	sp := e.P.Pkg(jsondbRel)
 	tr := &ir.Tracer{C: e.C, Through: ir.StringThrough, Descend: e.repoDescend,
-		Sanitizer: func(c *ssa.Call) bool { return e.isGlobEscaper(c.Call.StaticCallee()) },
+		Sanitizer: func(c *ssa.Call) bool { return e.escapedArg(c) != nil },
 		Up: func(f *ssa.Function) []ssa.CallInstruction {
 			if f.Object() != nil && f.Object().Exported() {
 				return nil
@@ -300,12 +300,7 @@ func c06Isolation(e *Env) {
 	sp := e.P.Pkg(jsondbRel)
 	// an escaping helper keeps the derivation of its argument
 	tr := &ir.Tracer{C: e.C, Through: ir.StringThrough, Descend: e.repoDescend,
-		Wrapper: func(c *ssa.Call) []ssa.Value {
-			if f := c.Call.StaticCallee(); e.isGlobEscaper(f) && len(f.Params) == 1 && len(c.Call.Args) == 1 {
-				return c.Call.Args
-			}
-			return nil
-		},
+		Wrapper: e.escapedArg,
 		// a helper's parameter is followed to its call sites: the DAG argument is the
 		// string parameter of the store's exported operation the helper works for
 		Up: func(f *ssa.Function) []ssa.CallInstruction {
@@ -566,7 +561,25 @@ func c06NewestFirst(e *Env) {
 	// under len(files) <= n
 	okSlice := true
 	nRet := 0
-	files, nParam := ssa.Value(fn.Params[0]), ssa.Value(fn.Params[1])
+	// the sorted slice (what sort.Slice is given) and the requested count (the
+	// function's int parameter)
+	var files, nParam ssa.Value
+	for _, ci := range ir.CallsIn(fn, func(c *ssa.CallCommon) bool { return ir.IsCallTo(c, "sort.Slice", "sort.SliceStable") }) {
+		a := ir.Resolve(ci.Common().Args[0])
+		if mi, isMI := a.(*ssa.MakeInterface); isMI {
+			a = ir.Resolve(mi.X)
+		}
+		files = a
+	}
+	for _, p := range fn.Params {
+		if p.Type().String() == "int" {
+			nParam = p
+		}
+	}
+	if files == nil || nParam == nil {
+		r.Unknown("filterLatest: the sorted slice and the requested count", e.Pos(fn.Pos()), "not found")
+		return
+	}
 	isFiles := func(v ssa.Value) bool { return ir.Resolve(v) == files }
 	lenOfFiles := func(v ssa.Value) bool {
 		x, ok := lenArg(v)
@@ -604,6 +617,12 @@ func c06NewestFirst(e *Env) {
 			} else if sl, isS := res.(*ssa.Slice); isS && sl.Low == nil && sl.High != nil && isFiles(sl.X) {
 				if ir.Resolve(sl.High) == nParam {
 					good = nLEQlen
+				} else if mc, isC := ir.Resolve(sl.High).(*ssa.Call); isC {
+					// files[:min(n, len(files))]
+					if bi, isB := mc.Call.Value.(*ssa.Builtin); isB && bi.Name() == "min" && len(mc.Call.Args) == 2 {
+						a0, a1 := mc.Call.Args[0], mc.Call.Args[1]
+						good = (ir.Resolve(a0) == nParam && lenOfFiles(a1)) || (ir.Resolve(a1) == nParam && lenOfFiles(a0))
+					}
 				} else if ph, isP := sl.High.(*ssa.Phi); isP {
 					hasN, hasLen := false, false
 					for _, ed := range ph.Edges {
@@ -702,4 +721,31 @@ func c06UnboundedLine(e *Env) {
 	if n == 0 {
 		r.Unknown("ParseFile: line reader", e.Pos(pf.Pos()), "no recognised line-reading primitive reachable from ParseFile")
 	}
+}
+
+// escapedArg: the call applies a glob escaper to its argument - a repository
+// helper whose constants cover the glob metacharacters, or the Replace method of
+// a package-level strings.Replacer built from them - and returns that argument.
+func (e *Env) escapedArg(c *ssa.Call) []ssa.Value {
+	if f := c.Call.StaticCallee(); e.isGlobEscaper(f) && len(f.Params) == 1 && len(c.Call.Args) == 1 {
+		return c.Call.Args
+	}
+	if ir.IsCallTo(&c.Call, "(*strings.Replacer).Replace") && len(c.Call.Args) == 2 {
+		if u, ok := ir.Resolve(c.Call.Args[0]).(*ssa.UnOp); ok {
+			if gl, isG := u.X.(*ssa.Global); isG && gl.Pkg != nil {
+				seen := map[string]bool{}
+				for _, s := range e.globalInitConsts(gl) {
+					for _, m := range []string{"\\", "*", "?", "["} {
+						if strings.Contains(s, m) {
+							seen[m] = true
+						}
+					}
+				}
+				if len(seen) == 4 {
+					return c.Call.Args[1:]
+				}
+			}
+		}
+	}
+	return nil
 }
